@@ -252,7 +252,11 @@ let oracle_c12_case script trace =
           let log = rl_glue_log !main in
           if not (rl_or_replay rl_topo0 ep.rl_ep_zone ep.rl_ep_pos log delivered) then
             fail (Printf.sprintf "%s e=%d pos=%d got=%s" (if num a "mirror" 0 <> 0 then "replay-setlogposition-acks-wrong-log" else "replay-mismatch")
-                    id pos (String.concat "," msgs)) end
+                    id pos (String.concat "," msgs))
+          (* timestamps that do not strictly increase in log order (the sender's clock did not advance or stepped back between two
+             relays): the statement still owes the endpoint every persisted entry above its position *)
+          else if not (rl_strict_b log) && num a "mirror" 0 = 0 && not (rl_or_damaged rl_topo0 ep.rl_ep_zone ep.rl_ep_pos log delivered) then
+            fail (Printf.sprintf "nonincreasing-timestamps-not-replayed e=%d pos=%d got=%s" id pos (String.concat "," msgs)) end
         else begin
           let log = rl_glue_log !intact in
           if not (rl_or_damaged rl_topo0 ep.rl_ep_zone ep.rl_ep_pos log delivered) then begin
